@@ -83,5 +83,7 @@ def run(rep, facts, tier):
         scan.run_specs(rep, f, c, 'R-SCAN', ['mem::utf16_valid_up_to', 'utf_8::convert_utf8_to_utf16_up_to_invalid'])
         r_kernel.run(rep, f, c, 'R-KERNEL', ['copy', 'validate'])
         r_utf8store.run(rep, f, c)
+        import r_repair
+        rep.floor('R-REPAIR', 'returning paths of ensure_utf16_validity', r_repair.run(rep, f, c), 1, c)
         r_dim.run(rep, f, c)
     return ('other', MANIFEST['text'], [])
